@@ -44,6 +44,7 @@ Section Catalog.
   | CHandleByName (name : string)
       (* register_table("<name>", alias) / register_labels_table("<name>"): a frame for an existing table; no effect *)
   | CDropTable (name : string) (force : bool)
+  | CDropFrame (key : pname K)
   | CRealtime (cached : bool).
 
   Definition register_leaf (s : state K) (l : lname) (v : prov) : state K :=
@@ -75,10 +76,17 @@ Section Catalog.
          end, [])
     | CHandleByName name => (s, [])
     | CDropTable name force =>
+        (* db_api.table_to_splink_dataframe(name, name): a frame whose created_by_splink flag is False;
+           drop_table_from_database_and_remove_from_cache(force_non_splink_table=force) checks that flag *)
         let p := PL K (LPlain name) in
-        if force then
-          (set_cache K (set_db K s (aremove K keqb (st_db K s) p)) (cache_remove_phys K keqb (st_cache K s) p), [])
-        else (s, [Refused name])
+        let frame := {| h_templ := name; h_phys := p; h_src := Leaf (LPlain name); h_cbs := force |} in
+        drop_handle K keqb s frame
+    | CDropFrame key =>
+        (* the same call on a frame Splink handed out earlier (it is cached under [key]): allowed iff created_by_splink *)
+        match aget K keqb (st_cache K s) key with
+        | Some h => drop_handle K keqb s h
+        | None => (s, [])
+        end
     | CRealtime cached =>
         let u := st_ctr K s in                      (* uid = ascii_uid(8): fresh *)
         let s0 := set_luid_ctr K s (st_luid K s) (S u) in
@@ -112,6 +120,7 @@ Section Catalog.
     | CRegisterByName _ _ => true
     | CHandleByName _ => true
     | CDropTable _ force => negb force
+    | CDropFrame _ => true
     | CRealtime cached => negb cached || fx715 fx      (* the cached-SQL path is safe on the repaired tree only *)
     end.
 
